@@ -321,19 +321,38 @@ func genC12(c *Ctx) {
 		c.Fail("c12.source", none, f.key, f.what)
 	}
 	// the wall-clock scenarios of the silence rule (12 s each) overlap everything else
-	nAlive := 10
+	// thorough: + the pinger scenario with a FIN (the pinger needs two periods to
+	// notice), all black holes on both client sizes, more authenticated black holes
+	sel := []int{0, 1, 2, 3, 4, 5, 6, 7, 8, 9, 14, 15, 18}
 	if c.Thorough() {
-		nAlive = 14 // + the pinger scenario with a FIN (the pinger needs two periods to notice), all black holes on both client sizes
+		sel = []int{0, 1, 2, 3, 4, 5, 6, 7, 8, 9, 10, 11, 12, 13, 14, 15, 16, 17, 18}
 	}
-	alive := make([]*c12Job, nAlive)
-	aliveDone := make(chan int, nAlive)
-	for mode := range alive {
+	alive := make([]*c12Job, 19)
+	aliveDone := make(chan int, 19)
+	storm := make(chan []c12Fail, 1)
+	go func() {
+		f, bad := runC12Storm(48, 512<<10)
+		if bad != "" && len(f) == 0 {
+			f = append(f, c12Fail{"harness-error", bad})
+		}
+		storm <- f
+	}()
+	overlap := make(chan []c12Fail, 1)
+	go func() {
+		f, bad := runC12Overlap(c.Scale(12, 25), 8)
+		if bad != "" && len(f) == 0 {
+			f = append(f, c12Fail{"harness-error", bad})
+		}
+		overlap <- f
+	}()
+	for _, mode := range sel {
 		mode := mode
 		alive[mode] = &c12Job{kind: "c12.seq", class: []string{"seq|alive|pong-keeps-alive", "seq|alive|nonce-keeps-alive", "seq|alive|silent-reconnects",
 			"seq|outage|short", "seq|outage|long", "seq|pinger|survives-reconnect|rst",
 			"seq|blackhole|accept-only|c1", "seq|blackhole|partial-handshake|c2", "seq|blackhole|handshake-then-silence|c1", "seq|blackhole|accept-only|c2",
 			"seq|pinger|survives-reconnect|fin",
-			"seq|blackhole|partial-handshake|c1", "seq|blackhole|handshake-then-silence|c2", "seq|blackhole|accept-only|c1|b"}[mode]}
+			"seq|blackhole|partial-handshake|c1", "seq|blackhole|handshake-then-silence|c2", "seq|blackhole|accept-only|c1|b",
+			"seq|blackhole-auth|no-nonce-silent|c1", "seq|blackhole-auth|auth-ignored|c1", "seq|blackhole-auth|accept-only|c2", "seq|blackhole-auth|auth-ignored|c2", "seq|blackhole-auth|double-nonce|c1"}[mode]}
 		go func() {
 			j := alive[mode]
 			acts := sx.L(sx.L(sx.A("alive"), sx.Nat(mode)))
@@ -346,10 +365,14 @@ func genC12(c *Ctx) {
 				acts = sx.L(sx.L(sx.A("pinger"), sx.Nat(map[int]int{5: 1, 10: 0}[mode])))
 				events, fails, bad = runC12Pinger(mode == 5)
 			} else if mode >= 6 {
-				ph := map[int][2]int{6: {1, 1}, 7: {2, 2}, 8: {3, 1}, 9: {1, 2}, 11: {2, 1}, 12: {3, 2}, 13: {1, 1}}[mode]
-				acts = sx.L(sx.L(sx.A("blackhole"), sx.Nat(ph[0]), sx.Nat(ph[1])))
-				j.in = sx.L(sx.Nat(ph[1]), acts, sx.L())
-				events, fails, bad = runC12BlackHole(ph[0], ph[1])
+				ph := map[int][2]int{6: {1, 1}, 7: {2, 2}, 8: {3, 1}, 9: {1, 2}, 11: {2, 1}, 12: {3, 2}, 13: {1, 1},
+					14: {3, 1}, 15: {4, 1}, 16: {1, 2}, 17: {4, 2}, 18: {5, 1}}[mode]
+				au := 0
+				if mode >= 14 {
+					au = 1
+				}
+				acts = sx.L(sx.L(sx.A("blackhole"), sx.Nat(ph[0]), sx.Nat(ph[1]), sx.Nat(au)))
+				events, fails, bad = runC12BlackHoleAuth(ph[0], ph[1], au == 1)
 				j.in = sx.L(sx.Nat(ph[1]), acts, sx.L(events...))
 				j.out, j.fails = sx.A("accept"), fails
 				if bad != "" && len(fails) == 0 {
@@ -478,16 +501,39 @@ func genC12(c *Ctx) {
 			c.Fail("c12.auth", in, "process-crash", "the process died (or froze) during the scenario: "+out)
 		case strings.Contains(out, "'hang"):
 			c.Fail("c12.auth", in, "call-hangs", "a call under a caller deadline of 1 h did not return by the client timeout, or NewConnection did not return by its context deadline: "+trunc(out, 200))
+		case strings.Contains(out, "'deaf"):
+			c.Fail("c12.auth", in, "deaf-connection", "after a frame it cannot parse the client keeps the connection open but reads nothing more: "+trunc(out, 200))
 		case strings.Contains(out, "'goroutine-growth"):
 			c.Fail("c12.auth", in, "goroutine-growth", "calls issued while a connection is in a black hole leave goroutines behind: "+trunc(out, 200))
 		case strings.Contains(out, "'noreconnect"):
 			c.Fail("c12.auth", in, "no-reconnect", "the connection was not re-established after a failed send: "+trunc(out, 200))
 		}
 	}
-	for range alive {
+	for range sel {
 		<-aliveDone
 	}
+	c.Note("c12.storm", "overlap|8-reconnects", none)
+	for _, f := range <-overlap {
+		c.Fail("c12.storm", none, f.key, f.what)
+	}
+	c.Note("c12.storm", "storm|48x512KiB", none)
+	for _, f := range <-storm {
+		c.Fail("c12.storm", none, f.key, f.what)
+	}
 	for _, j := range alive {
+		if j == nil {
+			continue
+		}
+		if strings.Contains(j.class, "double-nonce") && j.bad == "" {
+			// what "up" means is blurred when the server accepts an authentication whose
+			// first answer the client has already rejected: judged by the oracle only
+			// (no call hangs, Connection.mu is never stuck, re-established in time)
+			c.Note("c12.seq", j.class, j.in)
+			for _, f := range j.fails {
+				c.Fail(j.kind, j.in, f.key, f.what)
+			}
+			continue
+		}
 		if j.bad != "" {
 			fmt.Fprintf(os.Stderr, "c12: alive: harness error: %s\n", j.bad)
 			c.Fail(j.kind, none, "harness-error", j.bad)
